@@ -115,6 +115,12 @@ def make_measure(shape, q=4, pin_pitch=True):
             d = S.Note("G", oct_a, 1, id="d", voice=1, staff=1, symbolic_duration=dict(sd))  # same onset as a, one division long
             part.add(d, t0 + on_a, t0 + on_a + 1)
             notes.append(d)
+        if shape == "gap2":
+            # a second note of b's voice after a one-division gap (no rest in between)
+            require(on_b + d_b + 2 <= bar)
+            f2 = S.Note("D", 3, None, id="f", voice=v_b, staff=st_b, symbolic_duration=dict(sd))
+            part.add(f2, t0 + on_b + d_b + 1, t0 + on_b + d_b + 2)
+            notes.append(f2)
         if shape == "poly_two":
             # an earlier note of the same voice still sounding when the unequal chord a/d begins: two notes have to be
             # moved to free voices, found in two passes
@@ -200,7 +206,7 @@ def make_measure(shape, q=4, pin_pitch=True):
 
 
 def _inst(tier):
-    shapes = ["plain", "chord", "chord_uneq", "grace", "rest_tie", "direction", "divchange", "divchange_m2", "divchange_x", "divchange_x_m2", "poly_two"] + (["all"] if tier != "quick" else [])
+    shapes = ["plain", "chord", "chord_uneq", "grace", "rest_tie", "direction", "divchange", "divchange_m2", "divchange_x", "divchange_x_m2", "poly_two", "gap2"] + (["all"] if tier != "quick" else [])
     out = [{"shape": s} for s in shapes]
     if tier != "quick":
         out += [{"shape": "plain", "pin_pitch": False}, {"shape": "chord", "q": 6}]
@@ -217,7 +223,7 @@ HARNESSES = [
       bounds="one 4/4 measure, divisions 4; two notes with symbolic onset/duration, symbolic octave / alteration / voice (1..2) / "
              "staff (1..2); optional chord member, chord member of other duration, grace note, rest and tie flag, words/dynamics "
              "inside the measure, a mid-measure divisions change (notes not crossing it) in the first or in a later measure, an unequal chord "
-             "overlapped by an earlier note of its voice, per shape; "
+             "overlapped by an earlier note of its voice, two notes with a gap between them in the second voice, per shape; "
              "symbolic durations given (the estimator is C11's)",
       outside="load_musicxml, serialisation to bytes and the re-export fixpoint, part lists / groups, slurs, tuplets, "
               "notes crossing a divisions change, more than four notes per measure"),
